@@ -47,6 +47,9 @@ type IPFSLog struct {
 }
 
 func (l *IPFSLog) Len() int {
+	l.lock.RLock()
+	defer l.lock.RUnlock()
+
 	return l.Entries.Len()
 }
 
